@@ -158,7 +158,7 @@ func isClassic(b []byte) bool { return breakXRef(b) != nil }
 func buildInputs(t *vk.T) []*input {
 	var ins []*input
 	// corpus
-	corpus := corpusInputs(t, t.Pick(8, 30), t.Pick(4, 30))
+	corpus := corpusInputs(t, t.Pick(3, 30), t.Pick(8, 30))
 	ins = append(ins, corpus...)
 
 	// object streams
@@ -168,7 +168,10 @@ func buildInputs(t *vk.T) []*input {
 		plain  bool
 		chunk  int
 	}
-	specs := []os{{50000, 60000, false, 0}, {20000, 30000, true, 0}, {6000, 20, false, 0}, {3000, 5, true, 0}, {12000, 100, false, 0}}
+	specs := []os{{20000, 30000, false, 0}, {6000, 20, false, 0}, {3000, 5, true, 0}, {12000, 100, true, 0}}
+	if !t.Quick() {
+		specs = append(specs, os{50000, 60000, false, 0}, os{50000, 60000, true, 0})
+	}
 	for i := 0; i < t.Pick(0, 12); i++ {
 		n := 1000 + rng.IntN(40000)
 		per := []int{1, 3, 10, 50, 200, n + 10}[rng.IntN(6)]
@@ -201,7 +204,7 @@ func buildInputs(t *vk.T) []*input {
 			}
 		}
 	}
-	addRepair("classic-n=3000-lf", classicDoc(3000, "\n"), nil)
+	addRepair("classic-n=1500-lf", classicDoc(1500, "\n"), nil)
 	addRepair("classic-n=800-crlf", classicDoc(800, "\r\n"), map[string]bool{"xref-keyword": true, "tail-cut": true})
 	nc := 0
 	for _, c := range corpus {
